@@ -26,6 +26,7 @@ func RunC02(tier string) int {
 	Parallel(n, func(i int) {
 		r := rng.Derive(uint64(run.Seed), "C02", fmt.Sprint(i))
 		pf := spec.DefaultProfile()
+		pf.Multiplatform = r.Chance(1, 2)
 		s := spec.Gen(r, pf)
 		gcfg := randCfg(r)
 		cfg := BuildCfg{EnableCache: true}
@@ -77,6 +78,15 @@ func RunC02(tier string) int {
 				case x < 15: // perturbed process environment, nothing else changes
 					name = "env-perturbed"
 					bo.Env = []string{"TZ=" + rng.Pick(r, []string{"UTC", "Asia/Tokyo", "America/New_York"}), "LANG=C", "UNRELATED_" + r.Word(3, 5) + "=" + r.Word(3, 9), "HOME=" + env.Dir + "/home2"}
+				case x < 16:
+					// build for another platform (and back): results of targets that are not
+					// tagged multiplatform-cache belong to the platform they were built for
+					cur := env.Spec.Platform
+					for env.Spec.Platform == cur {
+						env.Spec.Platform = rng.Pick(r, []string{"", "linux/arm64", "darwin/arm64"})
+					}
+					name = "switch-platform"
+					env.Logf("platform: %q -> %q", cur, env.Spec.Platform)
 				default:
 					for try := 0; try < 6 && name == ""; try++ {
 						op := pickOp(r, ops)
@@ -91,11 +101,11 @@ func RunC02(tier string) int {
 				}
 			}
 			names = append(names, name)
-			if name != "noop" && name != "relocate-checkout" && name != "env-perturbed" && !strings.HasPrefix(name, "out-") && !strings.HasPrefix(name, "dir-out") && name != "file-where-dir-should-be" {
+			if name != "noop" && name != "relocate-checkout" && name != "env-perturbed" && name != "switch-platform" && !strings.HasPrefix(name, "out-") && !strings.HasPrefix(name, "dir-out") && name != "file-where-dir-should-be" {
 				bo.Patterns = somePatterns(r, env.Spec)
 			}
 			ext := ""
-			if name == "noop" || name == "relocate-checkout" || name == "env-perturbed" {
+			if name == "noop" || name == "relocate-checkout" || name == "env-perturbed" || name == "switch-platform" {
 				ext = name
 			}
 			p, obs, vs, err := env.Step(bo, cfg, ext, false)
